@@ -300,7 +300,8 @@ func Concat(ss ...Sequence) Sequence {
 		return ss[0]
 	default:
 		head, tail := ss[0], ss[1:]
-		ff, p := head.Features(), head.Bytes()
+		ff := head.Features()
+		p := append([]byte(nil), head.Bytes()...)
 
 		for _, seq := range tail {
 			for _, f := range seq.Features() {
@@ -350,8 +351,10 @@ func Rotate(seq Sequence, n int) Sequence {
 	}
 
 	m := Len(seq) - n
-	p := seq.Bytes()
-	p = append(p[m:], p[:m]...)
+	q := seq.Bytes()
+	p := make([]byte, 0, len(q))
+	p = append(p, q[m:]...)
+	p = append(p, q[:m]...)
 
 	seq = WithFeatures(seq, ff)
 	seq = WithBytes(seq, p)
